@@ -3,7 +3,7 @@
 ENGINES = [
     {'name': 'vloop', 'path': 'vp/vloop.py', 'serves_properties': ['C03'], 'kind_free_text': 'virtual asyncio loop with explicit, classified ready-queue (order-preserving-delay scheduler seam)'},
     {'name': 'explore', 'path': 'vp/explore.py', 'serves_properties': ['C03', 'C06', 'C19'], 'kind_free_text': 'deviation-bounded stateless schedule explorer (replay prefix on fresh objects, divergence = harness error)'},
-    {'name': 'enumerate', 'path': 'vp/props/*.py', 'serves_properties': ['C01', 'C02', 'C04', 'C05', 'C14', 'C15', 'C18'], 'kind_free_text': 'bounded-exhaustive enumeration of inputs/histories against a Python reference model, executed on the real code'},
+    {'name': 'enumerate', 'path': 'vp/props/*.py', 'serves_properties': ['C01', 'C02', 'C04', 'C05', 'C10', 'C11', 'C14', 'C15', 'C18'], 'kind_free_text': 'bounded-exhaustive enumeration of inputs/histories against a Python reference model, executed on the real code'},
 ]
 
 NOTES = ('All checks drive the real bumble code imported from /repo\'s working tree; no model in another language. '
@@ -86,6 +86,21 @@ CLAIMS['C19'] = {
     'technique': 'bounded-exhaustive enumeration of SDP record sets x MTUs x patterns x transactions against a Python reference matcher, deviation-bounded schedule exploration of two interleaved SDP clients, explicit-state BFS over fragment/fault sequences on the real AVDTP/AVCTP assemblers, and exhaustive AVDTP stream operation sequences',
     'text': 'SDP: real Server/Client over classic channels; record sets (16/32/128-bit UUIDs, nested lists, 12-UUID record) x client MTU {48..51,64,672 (+ up to 65535)} x patterns of 1-12 UUIDs (present/absent/nested/other width) x attribute-id lists x three transaction types incl. answers sized around k x per-response capacity up to the 64-response watchdog; two clients on different peers: all connect/query/disconnect sequences to length 5 (7) and concurrent transactions under all schedules with <=1 (<=2) delivery deviations. Assemblers: BFS depth 7 (9) over fragments of 2-3 messages from an independent spec fragmenter plus wrong label/type, relabelled, empty and short PDUs; every intact message delivered byte-identical exactly once, a broken sequence loses only its own message. AVDTP sender over peer MTU 48..56, 672: fragments fit, packet types/count right, reassembles. AVDTP stream: all operation sequences of length <=4 (<=5) through the Stream API and raw signalling against the spec state table.',
     'note': 'Four recorded findings: one SDP server state shared by all clients (3 signatures) and the AVCTP assembler expecting a PID in continue/end packets (bumble\'s own test asserts it).',
+}
+
+CLAIMS['C10'] = {
+    'level': 'exploration',
+    'engine': 'enumerate',
+    'technique': 'bounded-exhaustive enumeration of raw ATT PDUs (all 256 opcodes x boundary parameters x truncations) x attribute databases x ATT_MTU on the real GATT server over fixed and enhanced bearers, with an independent opcode classification as oracle; exhaustive op-sequence enumeration for indications',
+    'text': 'Raw request bytes injected at the server side of a real LE connection (ATT fixed channel and a real EATT credit-based channel), every PDU the server sends captured: all 256 opcodes x 8 generic parameter blocks; every defined request over boundary handles, all (start,end) pairs incl. start>end, handle sets of size 0..3 and MTU-filling, blob offsets, present/absent/malformed types, write lengths, every prefix of 19 well-formed PDUs; 5 database shapes x value lengths at the MTU-dependent packing boundaries x one protected attribute at each position; MTU {23,24,48,185,517} (thorough: every MTU 23..517). A request gets exactly one PDU (its response or an Error Response naming it); commands/confirmations/server PDUs get none; nothing exceeds the reference ATT_MTU. All ordered pairs of representative PDUs back-to-back; notify/indicate API forms x value lengths; all op sequences over two indications/confirmations/timeout to depth 5 (7): at most one unconfirmed indication per bearer. Capture seam and end-to-end seam must give identical replies.',
+    'note': 'Link unencrypted; payload alphabets are boundary sets. EATT MTUs other than five are set through on_att_mtu_update.',
+}
+CLAIMS['C11'] = {
+    'level': 'exploration',
+    'engine': 'enumerate',
+    'technique': 'exhaustive enumeration of permission-flag combinations x link security states x every reading/writing ATT operation form x placements x bearers on the real GATT server, against a permission predicate written from the statement',
+    'text': 'One secret-bearing target attribute in 9 placements (characteristic value static/dynamic/long, descriptor, alone, first/middle/last among same-typed attributes, group-typed) x all 256 permission combinations (quick: 256 for value/descriptor, 32-set lattice elsewhere) x {plain, encrypted, encrypted+authenticated (+authenticated only)} x {ATT, EATT} x 27 read forms (Read, Read Blob at 4 offsets, Read By Type x5, Read Multiple / Variable x5 each, Read By Group Type x4, Find By Type Value x3 with value = secret) and 7 write forms; constructor-made declarations and CCCDs as targets. A refused read leaks no 3-byte window of the secret and is answered by a corresponding access error where the operation has a response; a refused write leaves the value unchanged and the write callback uncalled.',
+    'note': 'Encryption key size is not modelled; authorisation is never granted. Five recorded findings share one root cause: READABLE/WRITEABLE flags are never tested (repair would break 70 repository tests).',
 }
 
 NOT_CLAIMED = {}
